@@ -274,3 +274,12 @@ package claim
 //@ site claim.NewClientSideCompositeSyncer($cl, $g)
 //@   assert [C06:default-syncer-uses-the-availability-checking-name-generator] $cl == c && $g == $ng
 //@ ensures [C06:default-syncer-is-the-one-built-here] result.CompositeSyncer == $syncer
+
+// C06: a claim reconciler built without options syncs through the default syncer as it is (the
+// syncer that records the XR on the claim before it creates it) - nothing wraps it.
+//@ func claim.NewReconciler
+//@ props C06
+//@ let $def = result claim.defaultCRComposite
+//@ loop range o
+//@   invariant [C06:default-syncer-kept-while-options-are-applied] len(o) == 0 ==> (r != nil && r.composite.CompositeSyncer == $def.CompositeSyncer)
+//@ ensures [C06:reconciler-without-options-uses-the-default-syncer-unwrapped] len(o) == 0 ==> (result != nil && result.composite.CompositeSyncer == $def.CompositeSyncer)
